@@ -26,6 +26,14 @@
        built from (template, converted data), run and dropped; only write-only statistics change.
        A process is a list of such engines with requests addressed to any of them; nothing else
        in the process is written by a render.
+       LOADING (engine.go compileDir): the template set of an engine is the listing of its
+       directory tree, every file translated by a translator (renderState) created for that file -
+       a function of the file alone; [load_shared] is the variant with one translator carried
+       from file to file, kept for the refutation witness.
+       RESULTS (engine.go Render: `result := new(bytes.Buffer)`): what a render returns is a
+       reader over a buffer allocated by that call; the buffers of a process form a heap that only
+       grows, the caller reads a result whenever it wants.  [rstep_pooled] is the variant with
+       one recycled buffer, kept for the refutation witness.
 
    (c) ALIASING.  One address space [store] of cells.  The caller's Go data occupies the cells below a
        boundary; convert allocates fresh cells above it and copies; every mutating template
@@ -407,6 +415,68 @@ Section Engine.
     fold_left (fun s ir => pstep (fst s) ir) irs (p, RNone).
   Definition presp (s : process * response) : response := snd s.
 End Engine.
+
+(* ---- LOADING: where the template set of an engine comes from ------------------------------
+   compileDir walks the directory tree in the order Readdir lists it; the template name is the
+   path of the file.  [files] is that walk: (template name, content of the file) in listing order;
+   the names are the paths, hence pairwise distinct.  e.templates is a Go map: what matters is
+   what is stored under a name. *)
+Section Loading.
+  Variable src : Type.                   (* a parsed *.ast.json file *)
+  Variable tpl : Type.
+  Variable translate : src -> tpl.       (* newRenderState + Parse + TokenToTemplate: per file *)
+
+  Definition load (files : list (bytes * src)) : list (bytes * tpl) :=
+    map (fun f => (fst f, translate (snd f))) files.
+
+  (* the variant: ONE translator for all files; whatever it accumulates (mixin table, counters,
+     doctype, raw mode) goes from each file to the next one in listing order *)
+  Variable tstate : Type.
+  Variable translate_st : tstate -> src -> tstate * tpl.
+  Fixpoint load_shared (st : tstate) (files : list (bytes * src)) : list (bytes * tpl) :=
+    match files with
+    | [] => []
+    | f :: r => let (st', t) := translate_st st (snd f) in (fst f, t) :: load_shared st' r
+    end.
+End Loading.
+
+(* a translator state as pugjs has it, cut down to the mixin table: a file is its mixin
+   definitions (name, body) and the names it calls; a definition is entered unless the name is
+   taken (renderDefinition), a call renders the body the table holds (nothing if there is none) *)
+Definition mx_src := (list (bytes * bytes) * list bytes)%type.
+Definition mx_define (tab : list (bytes * bytes)) (d : bytes * bytes) : list (bytes * bytes) :=
+  match lookup (fst d) tab with Some _ => tab | None => tab ++ [d] end.
+Definition mx_translate_st (tab : list (bytes * bytes)) (f : mx_src) : list (bytes * bytes) * list bytes :=
+  let tab' := fold_left mx_define (fst f) tab in
+  (tab', map (fun c => match lookup c tab' with Some b => b | None => [] end) (snd f)).
+Definition mx_translate (f : mx_src) : list bytes := snd (mx_translate_st [] f).
+
+(* ---- RESULTS: the readers Render returns ------------------------------------------------------ *)
+Section Results.
+  Variable tpl : Type.
+  Variable exec_state : Type.
+  Variable new_exec : tpl -> gdata -> exec_state.
+  Variable run_exec : exec_state -> exec_state.
+  Variable output : exec_state -> option bytes.
+
+  (* a process together with the result buffers its renders have allocated so far; the reader a
+     render returns is the index of its buffer *)
+  Record rproc := mk_rproc { rp_engines : process tpl; rp_bufs : list response }.
+
+  Definition rstep (s : rproc) (ir : nat * request) : rproc :=
+    let pr := pstep tpl exec_state new_exec run_exec output (rp_engines s) ir in
+    mk_rproc (fst pr) (rp_bufs s ++ [snd pr]).           (* new(bytes.Buffer) *)
+  Definition rrun (s : rproc) (irs : list (nat * request)) : rproc := fold_left rstep irs s.
+  (* reading the result with handle h - at any later time *)
+  Definition rread (s : rproc) (h : nat) : option response := nth_error (rp_bufs s) h.
+
+  (* the variant: every render writes into the one recycled buffer, all readers look at it *)
+  Definition rstep_pooled (s : rproc) (ir : nat * request) : rproc :=
+    let pr := pstep tpl exec_state new_exec run_exec output (rp_engines s) ir in
+    mk_rproc (fst pr) [snd pr].
+  Definition rrun_pooled (s : rproc) (irs : list (nat * request)) : rproc := fold_left rstep_pooled irs s.
+  Definition rread_pooled (s : rproc) (h : nat) : option response := nth_error (rp_bufs s) 0.
+End Results.
 
 (* ======================================================================== (c) ALIASING *)
 
